@@ -314,8 +314,12 @@ class OpsMixin:
                 a = self.val(a)
             if isinstance(b, Const):
                 b = self.val(b)
-        ta = static_tag(a) or (None if self.spec_mode else self.tag(a))
-        tb = static_tag(b) or (None if self.spec_mode else self.tag(b))
+        ta = static_tag(a) or self.tagcache.get(a.sexpr()) or (None if self.spec_mode else self.tag(a))
+        tb = static_tag(b) or self.tagcache.get(b.sexpr()) or (None if self.spec_mode else self.tag(b))
+        if z3.is_app(a) and a.decl().kind() == z3.Z3_OP_ITE and ta is None:
+            ta = static_tag(a.arg(1)) or static_tag(a.arg(2))
+        if z3.is_app(b) and b.decl().kind() == z3.Z3_OP_ITE and tb is None:
+            tb = static_tag(b.arg(1)) or static_tag(b.arg(2))
         if ta is None and tb is None and self.spec_mode:
             ta = tb = 'VInt'
         elif ta is None:
@@ -492,7 +496,11 @@ class OpsMixin:
                 raise OutOfSubset('membership in ' + repr(container))
         container = self.val(container)
         item = self.val(item)
-        t = static_tag(container) or self.tag(container)
+        t = static_tag(container)
+        if t is None and self.spec_mode:
+            t = 'VRef'
+        if t is None:
+            t = self.tag(container)
         if t == 'VStr':
             if (static_tag(item) or self.tag(item)) != 'VStr':
                 raise PyExc('TypeError', 'in <str>', implicit='type')
@@ -576,6 +584,11 @@ class OpsMixin:
                 hit = z3.Or([self.py_eq(idx, lift(k)) for k in keys]) if keys else z3.BoolVal(False)
                 if not self.spec_mode and not self.branch(hit):
                     raise PyExc('KeyError', self.snippet(node), implicit='key')
+                if not all(liftable(py[k]) for k in keys):
+                    for k in keys:
+                        if self.branch(self.py_eq(idx, lift(k))):
+                            return Const(py[k], '%s[%r]' % (obj.name, k))
+                    raise PathEnd()
                 r = None
                 for k in reversed(keys):
                     v = self.const_val(py[k])
